@@ -18,17 +18,17 @@ def build_cases(chk):
     rng = chk.rng
     b = scen_proc.boundary_cases()
     if chk.tier == 'quick':
-        # a seeded slice of the boundary product: every (kind, outcome class, phase, signal class)
-        # appears; the first accessor rotates with the seed
+        # a seeded slice of the boundary product: every (kind, representative outcome) without kill
+        # and every (phase, signal) with kill appears; the first accessor rotates with the seed
         by = collections.defaultdict(list)
         for c in b:
             k = c.get('kill')
-            by[(c['kind'], c['outcome'][0] if not k else '-', k['phase'] if k else None, k['sig'] if k else None)].append(c)
+            by[(c['kind'], str(c['outcome']) if not k else '-', k['phase'] if k else None, k['sig'] if k else None)].append(c)
         cases = []
         for key in sorted(by, key=str):
             grp = by[key]
-            cases += rng.sample(grp, min(len(grp), 3 if key[0] == 'process' else 2))
-        n = 70
+            cases += rng.sample(grp, min(len(grp), 3 if key[2] else 2))
+        n = 150
     else:
         cases = list(b)
         n = 1500
